@@ -249,7 +249,7 @@ def run(tier, seed):
         "bufio.Scanner's buffer is not modelled: the model's split sees the whole remaining input; true of the real decoder as long as an entry plus the header of the next fits in bufio.MaxScanTokenSize (65536 bytes); generated entries stay below 21 KB",
         "regexp, time.Parse, strconv.Atoi and strings.TrimSpace are modelled by hand-written functions (match_at, time_ok, span_digits, trim_space) and exercised by the cases, incl. perturbed streams; a multi-byte rune matched by the regexp's unescaped '.' is outside the model",
         "the harness process runs with time.Local set to a fixed non-UTC zone (offset chosen by the seed, in distribution.local_zone_offset_s) and converts with .UTC() itself",
-        "close + re-open: the model follows a name collision with the newest file only; the harness closes a file only while its name is not ahead of the wall clock (after several rotations within one second the names run ahead, and a re-open would then append to, or create, an older-named file: not generated, see report)",
+        "close + re-open: the model follows a name collision with the newest file only; the harness closes a file only while its name is not ahead of the wall clock (after several rotations within one second the names run ahead; probed on the real code: a re-open then writes into / creates an older-named file and read-back order breaks - corpus/C16/reopen-names-ahead-of-clock.json; only reachable through closeFileLocked = test-scope helper or verif hook, never from shakespeare; not generated)",
         "buffered mode: what is in the files before a flush depends on the asynchronous flush daemon and is not compared; files are looked at right after Flush(), or without a flush only while sync mode is on",
         "rotation/GC: a message is (identifier, byte length of its formatted entry); the per-file header entries are a constant size measured by calibration at the start and re-checked at the end of the run; sizes are sizes after log.Flush(); GC runs right after a flush; file names generated by create() are assumed new",
         "header widths are constant only if the goroutine id the logger prints is: the vendored petermattis/goid (2018) reads a runtime status word on go1.23 (2, or 4098 while the GC scans the stack), so the harness runs the logger histories with the Go garbage collector off and discards+redoes a history in whose files two goroutine ids appear (count: distribution.hist_discarded_goid_glitch)",
